@@ -137,14 +137,20 @@ func genEpoch(t *rapid.T, mode string, maxTasks int) []Task {
 	return out
 }
 
-// Gen draws a scenario.  VERIF_C05_MODE pins the mode (the quick tier runs
-// mode B only; thorough runs both).
+// Gen draws a scenario.  VERIF_C05_MODE pins the mode (both tiers mix modes
+// B and C otherwise).
 func Gen(t *rapid.T, tier string) any {
 	sc := &Scenario{MemSize: uint(rapid.SampledFrom([]int{1, 2, 5, 100}).Draw(t, "mem_size")), Cache: rapid.Bool().Draw(t, "cache")}
 	mode := os.Getenv("VERIF_C05_MODE")
 	if mode == "" {
+		// One case in four (quick) or three (thorough) is a real parallel
+		// burst; the rest are exactly repeatable mode B schedules.
 		mode = "B"
-		if tier == "thorough" && rapid.IntRange(0, 2).Draw(t, "mode_c") == 0 {
+		share := 3
+		if tier == "thorough" {
+			share = 2
+		}
+		if rapid.IntRange(0, share).Draw(t, "mode_c") == 0 {
 			mode = "C"
 		}
 	}
@@ -632,7 +638,7 @@ func Run(t *testing.T, scAny any, c *kernel.Ctx) error {
 		dh.VerifV4ConfigureDNSIPAddrs([]net.IP{net.IPv4(192, 168, 10, 1)})
 		r.dh = dh
 
-		up := &env.Upstream{Addr: "sim-upstream:53", Answer: env.DefaultAnswer, Latency: 300 * time.Microsecond}
+		up := &env.Upstream{Addr: "sim-upstream:53", Answer: env.DefaultAnswer, Latency: 337 * time.Microsecond}
 		cfg := &dnsnode.Config{Dir: dir, ListServer: r.ls, Upstream: up, UpTimeout: 2 * time.Second, ServerName: serverName,
 			QueryLog: ql, Stats: st, Anonymizer: anonymizer, ClientDHCP: dh, DHCP: dh, LocalDomain: "lan", RuntimeSourceDHCP: true}
 		cfg.Filtering = filtering.Config{BlockingMode: filtering.BlockingModeDefault, ProtectionEnabled: true, FilteringEnabled: true, FiltersUpdateIntervalHours: 1,
